@@ -1,10 +1,15 @@
-//! Counting allocator: remembers the largest single request since the last reset.  Requests of 1 GiB or more are served
+//! Counting allocator: remembers the largest single request since the last reset.  It is also deliberately unfriendly to
+//! dangling pointers, within what any allocator may do: freed blocks are overwritten with 0xDD before they are released, and
+//! `realloc` always moves the block (the old one is poisoned and freed) - so a view into a buffer that was dropped, shrunk
+//! or grown shows garbage at once instead of "the old bytes, still there".  Requests of 1 GiB or more are served
 //! from a lazily committed anonymous mapping, so that a hostile length field which makes the crate ask for 100 GiB is
 //! *observed* instead of killing the harness.
 use std::alloc::{GlobalAlloc, Layout, System};
 use std::sync::atomic::{AtomicUsize, Ordering};
 
 pub const BIG: usize = 1 << 30;
+/// blocks up to this size are poisoned when freed (larger ones would cost too much time)
+const POISON_MAX: usize = 8 << 20;
 
 static MAX_REQ: AtomicUsize = AtomicUsize::new(0);
 
@@ -59,6 +64,9 @@ unsafe impl GlobalAlloc for Counting {
         if layout.size() >= BIG {
             libc::munmap(ptr as *mut libc::c_void, layout.size());
         } else {
+            if layout.size() <= POISON_MAX {
+                std::ptr::write_bytes(ptr, 0xDD, layout.size());
+            }
             System.dealloc(ptr, layout)
         }
     }
@@ -73,7 +81,14 @@ unsafe impl GlobalAlloc for Counting {
             }
             np
         } else {
-            System.realloc(ptr, layout, new_size)
+            // always move: allocate, copy, poison and free the old block
+            let nl = Layout::from_size_align_unchecked(new_size, layout.align());
+            let np = System.alloc(nl);
+            if !np.is_null() {
+                std::ptr::copy_nonoverlapping(ptr, np, layout.size().min(new_size));
+                self.dealloc(ptr, layout);
+            }
+            np
         }
     }
 }
